@@ -9,6 +9,7 @@ package main
 // H2ClientTrace.tla judges the recording.
 
 import (
+	"os"
 	"math/rand"
 	"bytes"
 	"encoding/json"
@@ -121,6 +122,8 @@ type cliRun struct {
 	hdecMu   sync.Mutex
 	// SETTINGS_HEADER_TABLE_SIZE values this peer has sent: the acknowledged one and those still in flight
 	htsAcked   uint32
+	encMax     uint64 // dynamic table size the client's encoder has declared (4096 until it says otherwise)
+	blockTSOver bool
 	htsPending []uint32
 	rdDone   chan struct{}
 	reqs     map[int]*cReq
@@ -221,6 +224,7 @@ func runCliScenario(sc cScenario) (evs []sEvent) {
 	r.henc = hpack.NewEncoder(&r.hencBuf)
 	r.hdec = hpack.NewDecoder(4096, nil)
 	r.htsAcked = 4096
+	r.encMax = 4096
 	r.rdDone = make(chan struct{})
 
 	cliHookMu.Lock()
@@ -303,6 +307,10 @@ func runCliScenario(sc cScenario) (evs []sEvent) {
 		r.hdec.SetAllowedMaxDynamicTableSize(uint32(sc.Cfg.SrvHTS))
 		r.htsAcked = uint32(sc.Cfg.SrvHTS) // part of the handshake: in force before the first request
 	}
+	// one entry per SETTINGS frame sent, the handshake's included: the client's ACKs are matched to them in order
+	r.hdecMu.Lock()
+	r.htsPending = append(r.htsPending, htsNone)
+	r.hdecMu.Unlock()
 	r.fr.WriteSettings(ss...)
 	d.Len, d.NSet = 6*len(ss), len(ss)
 	r.flush(&d)
@@ -612,6 +620,24 @@ func (r *cliRun) readLoop() {
 	}
 }
 
+// hpackVarint reads an RFC 7541 5.1 integer with an n-bit prefix; it returns (value, octets used), 0 octets when p is short.
+func hpackVarint(p []byte, n uint) (uint64, int) {
+	lim := uint64(1)<<n - 1
+	v := uint64(p[0]) & lim
+	if v < lim {
+		return v, 1
+	}
+	var m uint
+	for i := 1; i < len(p) && i < 10; i++ {
+		v += uint64(p[i]&0x7f) << m
+		m += 7
+		if p[i]&0x80 == 0 {
+			return v, i + 1
+		}
+	}
+	return 0, 0
+}
+
 func bytesOfInts(a []int) []byte {
 	b := make([]byte, len(a))
 	for i, x := range a {
@@ -627,6 +653,23 @@ func (r *cliRun) decodeBlock(d *fdesc, frag []byte, end bool) {
 	}
 	r.hdecMu.Lock() // the stepping goroutine sets the decoder's table limit when it sends SETTINGS
 	defer r.hdecMu.Unlock()
+	if d.First {
+		// RFC 7541 4.2 / 6.3: the encoder's table may not be larger than the limit it has acknowledged; a reduction is
+		// signalled by a size update at the start of the next block.  Track what the encoder has declared.
+		p := frag
+		for len(p) > 0 && p[0]&0xe0 == 0x20 {
+			v, n := hpackVarint(p, 5)
+			if n == 0 {
+				break
+			}
+			r.encMax, p = v, p[n:]
+		}
+		r.blockTSOver = r.encMax > uint64(r.htsAllowed()) // (an increase may be used before it is acknowledged)
+		if r.blockTSOver && os.Getenv("H2V_DBG") != "" {
+			fmt.Fprintf(os.Stderr, "TSOVER encMax=%d acked=%d pending=%v frag=% x\n", r.encMax, r.htsAcked, r.htsPending, frag[:min(6, len(frag))])
+		}
+	}
+	d.TSOver = r.blockTSOver
 	r.hdec.SetEmitFunc(func(f hpack.HeaderField) {
 		r.pendingFields = append(r.pendingFields, f)
 		r.pendingSize += int(f.Size())
@@ -1028,13 +1071,17 @@ func (r *cliRun) step(st *cStep) {
 		} else {
 			var ss []xh2.Setting
 			carriedHTS := false
-			defer func() {
-				if !carriedHTS {
-					r.hdecMu.Lock()
-					r.htsPending = append(r.htsPending, htsNone) // one entry per SETTINGS frame, so that ACKs line up
-					r.hdecMu.Unlock()
-				}
-			}()
+			hasHTS := false
+			for _, p := range st.Pairs {
+				hasHTS = hasHTS || p[0] == 1
+			}
+			if !hasHTS {
+				// one entry per SETTINGS frame, so that ACKs line up - in place BEFORE the frame goes out: the ACK
+				// may be read by the other goroutine before this function returns
+				r.hdecMu.Lock()
+				r.htsPending = append(r.htsPending, htsNone)
+				r.hdecMu.Unlock()
+			}
 			for _, p := range st.Pairs {
 				ss = append(ss, xh2.Setting{ID: xh2.SettingID(p[0]), Val: p[1]})
 				switch p[0] {
@@ -1043,7 +1090,11 @@ func (r *cliRun) step(st *cStep) {
 					// the limit binds the client's encoder from its ACK on; until then blocks encoded under any of the
 					// values still in flight are legitimate, so the decoder admits the largest of them
 					r.hdecMu.Lock()
-					r.htsPending = append(r.htsPending, p[1])
+					if carriedHTS {
+						r.htsPending[len(r.htsPending)-1] = p[1] // a later value in the same frame replaces the earlier one
+					} else {
+						r.htsPending = append(r.htsPending, p[1])
+					}
 					r.hdec.SetAllowedMaxDynamicTableSize(r.htsAllowed())
 					r.hdecMu.Unlock()
 					carriedHTS = true
